@@ -70,11 +70,11 @@ Definition unify_code (p : list nat) (k : Z) : Z :=
 Definition unify_codes (p : list nat) (codes : list Z) : list Z := map (unify_code p) codes.
 
 (* core.py: reducer used to merge the chunk results of GroupBy.<func_name>:
-   nansum for size / count / sum_squares (and sum), the nan-version where ScalarFuncs has one,
-   otherwise the reducer itself *)
+   the plain sum for size / count / sum / sum_squares (partial sums hold no nulls; an empty partial is skipped
+   through its count), the nan-version where ScalarFuncs has one, otherwise the reducer itself *)
 Definition core_merge (r : rname) : rname :=
   match r with
-  | Rnansum | Rnansum_squares | Rsum => Rnansum
+  | Rnansum | Rnansum_squares | Rsum => Rsum
   | Rnanmin => Rnanmin | Rnanmax => Rnanmax | Rfirst => Rfirst | Rlast => Rlast
   | other => other
   end.
